@@ -19,6 +19,12 @@ lists comma separated with `-` for the empty list, fees `n` (nil) or `r:c:s`, de
       → 64 hex digits of `OutgoingTxBatch.GetCheckpoint` | `error`
   reset | put <queue> <replaceId> | del <queue> <id>
       → `ok <id>` | `notfound` | `zeroid`
+  putm <queue> <replaceId> <base> <kind> <turnstone> <relayer> <fields…>     (fields as for `sb`, without id / estimate)
+      → `ok <id> <64 hex digits>` | `notfound` | `zeroid`
+      `Queue.Put` of that message (joint model `jqStep`): the digest is `GetBytesToSign` of the message AS STORED,
+      i.e. hashed with the id the put returned (+ `base`, the offset between the chain's counter and the
+      case-relative ids of the protocol) and the estimate kept by the wrapper.
+  (`put` / `del` run the same joint model; `put` stores a placeholder message.)
   hasest <requireGasEstimation 0|1> <estimate>
       → `true` | `false` of `filters.HasGasEstimate` (is the message offered to relayers)
 -/
@@ -98,7 +104,7 @@ def parseBatch? (args : List String) : Option (Bytes × GoBatch) :=
   | _ => none
 
 structure State where
-  ids : IdSt := {}
+  j : JqSt := {}
 
 def init : State := {}
 
@@ -114,15 +120,26 @@ def step (st : State) (args : List String) : State × String :=
   | ["put", q, r] =>
     match parseNat? q, parseNat? r with
     | some q, some r =>
-      let (s', res) := idStep st.ids (.put q r)
-      ({ st with ids := s' }, showIdRes res)
+      let (s', res) := jqStep st.j (.put q default r)
+      ({ st with j := s' }, showIdRes res)
     | _, _ => (st, "bad-op")
   | ["del", q, id] =>
     match parseNat? q, parseNat? id with
     | some q, some id =>
-      let (s', res) := idStep st.ids (.remove q id)
-      ({ st with ids := s' }, showIdRes res)
+      let (s', res) := jqStep st.j (.remove q id)
+      ({ st with j := s' }, showIdRes res)
     | _, _ => (st, "bad-op")
+  | "putm" :: q :: r :: base :: kind :: ts :: rel :: rest =>
+    match parseNat? q, parseNat? r, parseNat? base, parseMsg? (kind :: ts :: rel :: "0" :: "0" :: rest) with
+    | some q, some r, some base, some m =>
+      let (s', res) := jqStep st.j (.put q m r)
+      match res with
+      | .ok id =>
+        match jqGet s' q id with
+        | some stored => ({ st with j := s' }, s!"ok {id} " ++ showSign (goSignBytes keccakNat { stored with id := stored.id + base }))
+        | none => ({ st with j := s' }, s!"ok {id} missing")
+      | _ => ({ st with j := s' }, showIdRes res)
+    | _, _, _, _ => (st, "bad-op")
   | ["hasest", req, est] =>
     match parseNat? req, parseNat? est with
     | some req, some est =>
